@@ -152,6 +152,18 @@ CHECKS = {
             "each direction after the change must arrive. Mutants (trust check always true, default on) are caught.",
             "Trusted: the server double (drops the old installation's keys on re-registration). Histories sampled.",
             "DESIGN.md 4/C17"),
+    "C12": ("fault_enumeration",
+            "runtime monitor: failpoints at every layer's send/receive of the real default stack (and natural failures) followed by a lock census over all layer objects, follow-up traffic judged by the strict Noise peer, and a blocked-thread detector",
+            "Two real clients with the library's complete default stack are logged in against the Noise responder double. For every "
+            "layer and sublayer (23 sites) x send/receive x k=1..5 (quick; k<=8 and 4 script orders thorough) the k-th call raises "
+            "during a 10-operation script; 7 natural failures (un-encodable attribute, oversized stanza, send while down, "
+            "undecodable frame, unknown picture notification, raising application callback, unknown stream error) are added. "
+            "After each failure: the error must surface at a caller, no lock object on any layer may stay held, 6 follow-up "
+            "sends/receives (one from another thread) and 4 more after a reconnect must be processed - sends are judged by the "
+            "strict peer decrypting in counter order. A thread parked on a lock with an unchanged stack is the verdict for "
+            "'blocks forever'; a bare timeout is inconclusive. The enumeration site x direction x position is complete.",
+            "Sites at/below the cipher in the byte stream (network, segments, noise on receive) are only required not to block on the same connection and to work after a reconnect (an AEAD stream cannot lose bytes).",
+            "DESIGN.md 4/C12"),
 }
 
 NOT_BUILT = "check not built yet in this session (planned, see DESIGN.md section 4)"
